@@ -152,6 +152,7 @@ struct Dl {
     writer: Option<FramedWrite<ByteWriter, RawRequestMessageEncoder>>,
     done: Option<oneshot::Receiver<Result<(), swimos_messages::remote_protocol::LinkError>>>,
     reader: Option<JoinHandle<()>>,
+    attached: bool,
 }
 
 struct Agent {
@@ -321,7 +322,7 @@ async fn run_task_async(case: &Value) -> Value {
                     log.lock().push(json!({"k": "attach_failed", "d": d, "at": "send"}));
                 }
                 let reader = spawn_dl_reader(rx1, d, log.clone(), task_id);
-                dls.insert(d, Dl { writer: Some(FramedWrite::new(tx2, RawRequestMessageEncoder)), done: Some(done_rx), reader: Some(reader) });
+                dls.insert(d, Dl { writer: Some(FramedWrite::new(tx2, RawRequestMessageEncoder)), done: Some(done_rx), reader: Some(reader), attached: false });
             }
             "attach_done" => {
                 let d = a["d"].as_u64().unwrap();
@@ -331,6 +332,9 @@ async fn run_task_async(case: &Value) -> Value {
                     None => false,
                 };
                 if ok {
+                    if let Some(x) = dls.get_mut(&d) {
+                        x.attached = true;
+                    }
                     log.lock().push(a.clone());
                 } else {
                     log.lock().push(json!({"k": "attach_failed", "d": d, "at": "done"}));
@@ -347,13 +351,13 @@ async fn run_task_async(case: &Value) -> Value {
                     _ => Operation::Command(body),
                 };
                 let msg = RequestMessage { origin: Uuid::from_u128(100 + d as u128), path: RelativeAddress::new(s(m, "node"), s(m, "lane")), envelope: op };
-                log.lock().push(a.clone());
-                if let Some(w) = dls.get_mut(&d).and_then(|x| x.writer.as_mut()) {
+                if let Some(w) = dls.get_mut(&d).and_then(|x| if x.attached { x.writer.as_mut() } else { None }) {
+                    log.lock().push(a.clone());
                     if tokio::time::timeout(Duration::from_secs(3600), w.send(msg)).await.map(|r| r.is_err()).unwrap_or(true) {
                         log.lock().push(json!({"k": "send_failed", "d": d}));
                     }
                 } else {
-                    log.lock().push(json!({"k": "script_error", "what": "dl_send without downlink"}));
+                    log.lock().push(json!({"k": "skip", "what": "dl_send", "d": d}));
                 }
             }
             "dl_detach" => {
@@ -380,10 +384,10 @@ async fn run_task_async(case: &Value) -> Value {
                 let msg = ResponseMessage { origin: Uuid::from_u128(9000), path: RelativeAddress::new(s(m, "node"), s(m, "lane")), envelope: n };
                 let w = agents.lock().get_mut(&node).and_then(|x| x.writer.take());
                 let inst = agents.lock().get(&node).map(|x| x.inst).unwrap_or(0);
-                let mut e = a.clone();
-                e["inst"] = json!(inst);
-                log.lock().push(e);
                 if let Some(mut w) = w {
+                    let mut e = a.clone();
+                    e["inst"] = json!(inst);
+                    log.lock().push(e);
                     if tokio::time::timeout(Duration::from_secs(3600), w.send(msg)).await.map(|r| r.is_err()).unwrap_or(true) {
                         log.lock().push(json!({"k": "send_failed", "node": node}));
                     }
@@ -391,19 +395,23 @@ async fn run_task_async(case: &Value) -> Value {
                         x.writer = Some(w);
                     }
                 } else {
-                    log.lock().push(json!({"k": "script_error", "what": "agent_send without agent"}));
+                    // the environment's move is not enabled in this run (no live agent for the node): skipped
+                    log.lock().push(json!({"k": "skip", "what": "agent_send", "node": node}));
                 }
             }
             "agent_stop" => {
                 let node = s(a, "node").to_string();
-                log.lock().push(a.clone());
                 let x = agents.lock().get_mut(&node).map(|x| (x.writer.take(), x.reader.take()));
-                if let Some((w, r)) = x {
-                    drop(w);
-                    if let Some(h) = r {
-                        h.abort();
-                        let _ = h.await;
+                match x {
+                    Some((Some(w), r)) => {
+                        log.lock().push(a.clone());
+                        drop(w);
+                        if let Some(h) = r {
+                            h.abort();
+                            let _ = h.await;
+                        }
                     }
+                    _ => log.lock().push(json!({"k": "skip", "what": "agent_stop", "node": node})),
                 }
             }
             "peer_send" => {
